@@ -1,7 +1,8 @@
 /- DriverOps.C13 — run schedules through the two interleaving systems -/
 import DriverOps.C11
 import SparseV.Model.Interleave
-open Lean SparseV SparseV.Cache SparseV.Interleave
+import SparseV.Model.SharedReads
+open Lean SparseV SparseV.Cache SparseV.Interleave SparseV.Shared
 
 def outcomeJ {α} (f : α → Json) : Except Err α → Json
   | .ok v => Json.arr #[Json.str "ok", f v]
@@ -13,7 +14,117 @@ def jMode (j : Json) : R Mode := do
   | Json.str "snapshot" => pure .snapshot
   | _ => throw "bad mode"
 
+def jStr (j : Json) : R String := j.getStr?
+
+def jStmt (j : Json) : R Stmt := do
+  match j with
+  | Json.str "iter" => pure .iterItems
+  | Json.str "scan" => pure .scanItems
+  | Json.str "snap" => pure .snapshot
+  | Json.str "prune" => pure .pruneFill
+  | Json.arr #[Json.str "set", k, v] => pure (.setItem (← jNat k) (← jInt v))
+  | Json.arr #[Json.str "del", k] => pure (.delItem (← jNat k))
+  | _ => throw "bad statement"
+
+def stmtJ : Stmt → Json
+  | .iterItems => Json.str "iter"
+  | .scanItems => Json.str "scan"
+  | .snapshot => Json.str "snap"
+  | .pruneFill => Json.str "prune"
+  | .setItem k v => Json.arr #[Json.str "set", natJ k, intJ v]
+  | .delItem k => Json.arr #[Json.str "del", natJ k]
+
+def jItem (j : Json) : R Item := do
+  match j with
+  | Json.arr #[k, v] => pure (← jNat k, ← jInt v)
+  | _ => throw "bad item"
+
+def itemJ (it : Item) : Json := Json.arr #[natJ it.1, intJ it.2]
+
+def jFilter (j : Json) : R Filter := do
+  match j with
+  | Json.arr #[a, m, c] => pure ⟨actionOf (← jStr a), (← jStr m).toList, ← jStr c⟩
+  | _ => throw "bad filter"
+
+def actionJ : Action → Json
+  | .ignore => Json.str "ignore"
+  | .error => Json.str "error"
+  | .other => Json.str "other"
+
+def filterJ (f : Filter) : Json := Json.arr #[actionJ f.action, Json.str (String.ofList f.msg), Json.str f.cat]
+
+def jWOp (j : Json) : R WOp := do
+  match j with
+  | Json.arr #[Json.str "block", fs] => pure (.block (← jList jFilter fs))
+  | Json.arr #[Json.str "warn", c, m] => pure (.warn ⟨← jStr c, (← jStr m).toList⟩)
+  | _ => throw "bad op"
+
+def wopJ : WOp → Json
+  | .block fs => Json.arr #[Json.str "block", listJ filterJ fs]
+  | .warn w => Json.arr #[Json.str "warn", Json.str w.cat, Json.str (String.ofList w.msg)]
+
 namespace DriverOps
+def c13shared (op : String) (a : Array Json) : R (Option Json) := do
+  match op with
+  | "c13_dict_coarse" =>
+    -- entry array (items or null), one list of calls (lists of statements) per thread, coarse schedule, fuel
+    let d0 ← jList (jOpt jItem) (← arg a 1)
+    let progs ← jList (jList (jList jStmt)) (← arg a 2)
+    let coarse ← jList jNat (← arg a 3)
+    let fuel ← jNat (← arg a 4)
+    let s0 := dinit d0 progs
+    let mut s := s0
+    let mut arrived : Array Json := #[]
+    for t in coarse do
+      s := (dquantum fuel t s).1
+      arrived := arrived.push (Json.str (dpcKind s t))
+    let r := dcoarseRun fuel coarse s0
+    let rets := r.1.threads.map fun th => listJ (fun (x : Op × Except Err (List Item)) => Json.arr #[listJ stmtJ x.1, outcomeJ (listJ itemJ) x.2]) th.rets.reverse
+    pure (some (okJ (Json.mkObj
+      [("rets", Json.arr rets.toArray), ("dict", listJ (fun e => match e with | some it => itemJ it | none => Json.null) r.1.dict),
+       ("fine", listJ natJ r.2), ("arrived", Json.arr arrived), ("done", Json.bool (dallDone r.1)),
+       ("all_read", Json.bool (progs.all fun p => p.all Op.isRead))])))
+  | "c13_dok_protos" =>
+    -- the protocol of every DOK method of the generated table (null: not modelled), and which are read-only methods
+    let ms := (Gen.dokDataUses.map (·.1)).eraseDups
+    pure (some (okJ (Json.mkObj
+      [("protos", Json.mkObj (ms.map fun m => (m, match methodProto m with | some p => listJ stmtJ p | none => Json.null))),
+       ("read_methods", listJ Json.str dokReadMethods),
+       ("all_read", Json.bool (match dokReadProtos with | some ps => ps.all Op.isRead | none => false))])))
+  | "c13_filter_run" =>
+    -- initial filter list, one list of ops per thread, FINE schedule: the installed list after every step
+    let fs0 ← jList jFilter (← arg a 1)
+    let progs ← jList (jList jWOp) (← arg a 2)
+    let sched ← jList jNat (← arg a 3)
+    let mut s := winit fs0 progs
+    let mut trace : Array Json := #[]
+    for t in sched do
+      s := wstep t s
+      trace := trace.push (listJ filterJ s.filters)
+    let rets := s.threads.map fun th => listJ (fun (x : WOp × Except Err Unit) => Json.arr #[wopJ x.1, outcomeJ (fun _ => Json.null) x.2]) th.rets.reverse
+    pure (some (okJ (Json.mkObj
+      [("rets", Json.arr rets.toArray), ("filters", listJ filterJ s.filters), ("trace", Json.arr trace), ("done", Json.bool (wallDone s))])))
+  | "c13_blocks" =>
+    -- the generated blocks with the model's verdict per filter, and the catalogue
+    let bs := Gen.catchBlocks.map fun b => Json.mkObj
+      [("file", Json.str b.1), ("function", Json.str b.2.1), ("filters", listJ filterJ (b.2.2.map filterOf)),
+       ("harmful", listJ (fun f => Json.bool (harmful libraryCatalogue f)) (b.2.2.map filterOf))]
+    pure (some (okJ (Json.mkObj
+      [("blocks", Json.arr bs.toArray), ("catalogue", listJ (fun (w : Warn) => Json.arr #[Json.str w.cat, Json.str (String.ofList w.msg)]) libraryCatalogue),
+       ("global_writes", listJ (fun (r : String × String × String) => Json.arr #[Json.str r.1, Json.str r.2.1, Json.str r.2.2]) Gen.globalWrites)])))
+  | "c13_harmful" =>
+    -- is a filter harmful with respect to the library's catalogue extended by the given warnings?
+    let f ← jFilter (← arg a 1)
+    let extra ← jList (fun j => do match j with | Json.arr #[c, m] => pure (Warn.mk (← jStr c) (← jStr m).toList) | _ => throw "bad warning") (← arg a 2)
+    pure (some (okJ (Json.bool (harmful (libraryCatalogue ++ extra) f))))
+  | "c13_shared_witnesses" =>
+    pure (some (okJ (Json.mkObj
+      [("prune", Json.mkObj [("dict", listJ (fun e => match e with | some it => itemJ it | none => Json.null) C13.pruneDict),
+                             ("progs", listJ (listJ (listJ stmtJ)) C13.pruneProgs), ("sched", listJ natJ C13.pruneSched)]),
+       ("transient", Json.mkObj [("progs", listJ (listJ wopJ) C13.transientProgs), ("sched", listJ natJ C13.transientSched)]),
+       ("lasting", Json.mkObj [("progs", listJ (listJ wopJ) C13.lastingProgs), ("sched", listJ natJ C13.lastingSched)])])))
+  | _ => pure none
+
 def c13 (op : String) (a : Array Json) : R (Option Json) := do
   match op with
   | "c13_cache_run" =>
@@ -91,5 +202,5 @@ def c13 (op : String) (a : Array Json) : R (Option Json) := do
     pure (some (okJ (Json.mkObj
       [("dq", listJ keyJ (C13.cexDq.map (·.1))), ("progs", listJ (listJ keyJ) C13.cexProgs),
        ("sched", listJ natJ C13.cexSched)])))
-  | _ => pure none
+  | _ => c13shared op a
 end DriverOps
